@@ -312,3 +312,21 @@ PROPS["C10"] = dict(
     modelled="cmd/wrgl/fetch/root.go saveFetchedRefs, cmd/wrgl/push_cmd.go identifyUpdates, cmd/wrgl/merge_cmd.go runMerge (the if-chains, as fetchDecision / pushDecision / mergeDecision)",
     assumptions=["server-side ref update on push is reference-server code", "`wrgl pull` uses the remote's configured (forced) refspec for remote-tracking refs"],
 )
+
+# additions made while strengthening the generators against the seeded changes (DESIGN.md §0.6)
+_RULE_EXTRA = {
+    "C01": "; plus one size-boundary table per run (1 044 481 rows = 4097 blocks, 8 workers), read back in aggregate",
+    "C03": "; plus the size-boundary table (4097 blocks)",
+    "C05": "; 1 in 4 keyed tuples with column-changing branches (add / remove / move columns per branch, shared new names), judged by column name; 1 in 4 with an all-empty key",
+    "C07": "; 1 in 5 extra tables header-only",
+    "C11": "; walks from 3..5 start points with a repeated one",
+    "C13": "; every write position also as a single injected write error (the operation continues): consistency, error reported or harmless, re-run",
+    "C14": "; 1 in 5 scenarios inject the fault into discard (crash or single error at each of its store operations) and discard again; commit faults as crash or single error",
+    "C15": "; 1 in 8 logged sets run with a failing reflog insert (SQL trigger): must fail and change nothing",
+    "C16": "; 1 in 4 cases: a merge of 2..3 branches (256..955 rows) with a deleted block / block index of base or branch or reads failing after k, under a 20 s watchdog, and without fault compared with the one-processor outcome; the table index is compared too",
+    "C17": "; every 4-byte window of small objects overwritten by a huge count; profiles declaring fewer field names; commit / table / profile bytes also read through the store getters",
+    "C19": "; keyless tables over a tiny alphabet with the empty cell; the two outputs must agree also when keys repeat",
+    "C20": "; 1 in 8: 256..335 hashes sharing a first byte added in one batch",
+}
+for _k, _v in _RULE_EXTRA.items():
+    PROPS[_k]["rule"] = PROPS[_k]["rule"] + _v
